@@ -115,3 +115,57 @@ func VerifNameTreeHistory() {
 	_, found := root.Value(probe)
 	vp.Assert(found == inRef, "lookup of an arbitrary key disagrees with the reference map")
 }
+
+// VerifNameTreeForeignShape (C39, "multi-level trees read from generated documents"): Node.Add only ever
+// builds nodes with two kids, but trees written by other producers have wider nodes. A root with KIDS
+// leaf kids (1..2 symbolic one-byte keys each, ascending across the tree) is built directly, one key
+// (symbolic choice, possibly absent) is removed, and the same invariants must hold: unique ascending
+// keys, every node's limits equal to the smallest/largest key below it, lookups agree with the
+// reference list.
+func VerifNameTreeForeignShape() {
+	kids := vp.IntRange(2, vp.Bound("KIDS"))
+	root := &Node{}
+	var ref []verifKV
+	prev := byte(0)
+	val := 0
+	for i := 0; i < kids; i++ {
+		leaf := &Node{}
+		cnt := vp.IntRange(1, 2)
+		for j := 0; j < cnt; j++ {
+			b := vp.Byte()
+			vp.Assume(b > prev)
+			prev = b
+			k := string([]byte{b})
+			leaf.Names = append(leaf.Names, entry{k, types.Integer(val)})
+			ref = append(ref, verifKV{k, val})
+			val++
+		}
+		leaf.Kmin, leaf.Kmax = leaf.Names[0].k, leaf.Names[len(leaf.Names)-1].k
+		root.Kids = append(root.Kids, leaf)
+	}
+	root.Kmin, root.Kmax = root.Kids[0].Kmin, root.Kids[len(root.Kids)-1].Kmax
+	verifCheckAgainst(root, ref)
+	var key string
+	if vp.Choice(4) == 0 {
+		key = vp.String(1)
+	} else {
+		key = ref[vp.Choice(len(ref))].k
+	}
+	empty, ok, err := root.Remove(nil, key)
+	vp.Assert(err == nil, "Remove failed")
+	present := false
+	var kept []verifKV
+	for _, e := range ref {
+		if vp.Fork(e.k == key) {
+			present = true
+		} else {
+			kept = append(kept, e)
+		}
+	}
+	ref = kept
+	vp.Assert(ok == present, "Remove reported the wrong presence of the key")
+	vp.Assert(empty == (len(ref) == 0), "Remove reported the wrong emptiness of the tree")
+	if !empty {
+		verifCheckAgainst(root, ref)
+	}
+}
